@@ -938,8 +938,13 @@ ABT_bool ABTI_sched_has_to_stop(ABTI_sched *p_sched)
                 return ABT_TRUE;
         } else if (p_sched->used == ABTI_SCHED_IN_POOL) {
             /* Let's finish it anyway.
-             * TODO: think about the condition. */
-            return ABT_TRUE;
+             * TODO: think about the condition.
+             * As for a join request, check again: a blocked ULT that is being
+             * resumed right now is pushed to the pool before num_blocked is
+             * decremented, so it can be missed by one evaluation but not by
+             * two. */
+            if (!ABTI_sched_has_unit(p_sched))
+                return ABT_TRUE;
         }
     }
     return ABT_FALSE;
